@@ -187,9 +187,47 @@ def extra_cases(tier):
     yield "dup/on-referencing-element-first", skeleton(parts), "duplicate"
 
 
+def whole_document_cases(tier):
+    """trees rooted at eml: ids may sit anywhere in the document, also on the dataset element, on the root, and inside the
+    free-form content of additionalMetadata/metadata (an id is an id wherever it is written)"""
+    def doc(parts, md_children, dataset_id=None, root_id=None):
+        ds = skeleton(parts)
+        if dataset_id is not None:
+            ds[2] = {"id": dataset_id}
+        attrs = {"packageId": "p.1.1", "system": "s"}
+        if root_id is not None:
+            attrs["id"] = root_id
+        return ["eml", None, attrs, [ds, ["additionalMetadata", None, {}, [["metadata", None, {}, md_children]]]]]
+    res = [referenced("creator", 0, 1), referencing("contact", "id0")]
+    for where in ("none", "metadata-child", "metadata-grandchild", "metadata-element", "dataset", "root", "additionalMetadata"):
+        md = [["zzForeign", "x", {}, [["zzInner", None, {}, []]]]]
+        kw = {}
+        d = doc(res, md)
+        if where == "metadata-child":
+            md[0][2] = {"id": "id0"}
+        elif where == "metadata-grandchild":
+            md[0][3][0][2] = {"id": "id0"}
+        elif where == "metadata-element":
+            d[3][1][3][0][2] = {"id": "id0"}
+        elif where == "additionalMetadata":
+            d[3][1][2] = {"id": "id0"}
+        elif where == "dataset":
+            d[3][0][2] = {"id": "id0"}
+        elif where == "root":
+            d[2]["id"] = "id0"
+        yield f"document/dup-at-{where}", d, (None if where == "none" else "duplicate")
+    # the ids below metadata are distinct from the referenced ones: nothing to report, expansion as usual
+    md = [["zzForeign", "x", {"id": "elsewhere"}, [["zzInner", None, {"id": "elsewhere2"}, []]]]]
+    yield "document/distinct-ids-in-metadata", doc(res, md), None
+    # two ids that collide only with each other, both inside metadata, no reference involved with them
+    md = [["zzForeign", "x", {"id": "m"}, [["zzInner", None, {"id": "m"}, []]]]]
+    yield "document/dup-inside-metadata-only", doc(res, md), "duplicate"
+
+
 def all_cases(tier):
     yield from no_reference_cases(tier)
     yield from extra_cases(tier)
+    yield from whole_document_cases(tier)
     yield from party_cases(tier)
     yield from role_cases(tier)
     yield from table_cases(tier)
